@@ -137,6 +137,8 @@ type state struct {
 	fnRemoved, enRemoved []string
 	fnEver, enEver       bool
 	notesOff             bool
+	// a removal was rejected while the document had no notes of that kind yet (no add since New / none in the file)
+	fnRejEarly, enRejEarly bool
 
 	listsOff bool
 
@@ -290,11 +292,17 @@ func (s *state) checkLists(sn *snap, where string) {
 		return
 	}
 	var num *numbering
-	numErr := "the package has no word/numbering.xml"
-	if data, ok := sn.pkg.Parts["word/numbering.xml"]; ok {
+	// the numbering part is the one the main part's numbering relationship leads to (related.go)
+	numErr := ""
+	switch part, data, problem := relatedPart(sn, relNumbering, ctNumbering); {
+	case problem != "":
+		numErr = "the document's numbering part cannot be located as a reader locates it: " + problem
+	case part == "":
+		numErr = "the document has no numbering part" + orphanHint(sn, "word/numbering.xml", relNumbering)
+	default:
 		var err error
 		if num, err = parseNumbering(data); err != nil {
-			numErr = "word/numbering.xml: " + err.Error()
+			numErr = part + ": " + err.Error()
 			num = nil
 		}
 	}
@@ -375,30 +383,39 @@ func sortedIDs(m map[string]string) []string {
 	return ids
 }
 
-// readNotes returns id -> text of one notes part; ok=false after a failure was recorded.
-func (s *state) readNotes(sn *snap, foot bool, where string) (map[string]string, bool) {
-	part, rootL, entryL := "word/endnotes.xml", "endnotes", "endnote"
+// readNotes returns id -> text of the document's footnotes (endnotes) part: the part the main part's relationship
+// of that type leads to (related.go), not whatever entry has the conventional file name. No relationship = the
+// document has no notes of that kind; hint then says whether an unconnected entry of the conventional name exists.
+// ok=false after a failure was recorded.
+func (s *state) readNotes(sn *snap, foot bool, where string) (notes map[string]string, hint string, ok bool) {
+	conv, rootL, entryL, relType, ctype := "word/endnotes.xml", "endnotes", "endnote", relEndnotes, ctEndnotes
 	if foot {
-		part, rootL, entryL = "word/footnotes.xml", "footnotes", "footnote"
+		conv, rootL, entryL, relType, ctype = "word/footnotes.xml", "footnotes", "footnote", relFootnotes, ctFootnotes
 	}
 	out := map[string]string{}
-	data, ok := sn.pkg.Parts[part]
-	if !ok {
-		return out, true
+	part, data, problem := relatedPart(sn, relType, ctype)
+	if problem != "" {
+		s.res.Eval("C15.N5")
+		s.fail("C15.N5", "%s: the document's %s part cannot be located as a reader locates it: %s", where, rootL, problem)
+		return nil, "", false
 	}
+	if part == "" {
+		return out, orphanHint(sn, conv, relType), true
+	}
+	s.res.Eval("C15.N5")
 	es, err := parseNotes(data, rootL, entryL)
 	if err != nil {
 		s.fail("C15.N1", "%s: %s: %v", where, part, err)
-		return nil, false
+		return nil, "", false
 	}
 	for _, e := range es {
 		if _, dup := out[e.id]; dup {
 			s.fail("C15.N1", "%s: %s holds more than one note with id %q", where, part, e.id)
-			return nil, false
+			return nil, "", false
 		}
 		out[e.id] = e.text
 	}
-	return out, true
+	return out, "", true
 }
 
 func diffNotes(got, want map[string]string) string {
@@ -435,7 +452,7 @@ func (s *state) checkNotes(sn *snap, where, added, addedText string) {
 			continue
 		}
 		res.Eval("C15.N1")
-		got, ok := s.readNotes(sn, foot, where)
+		got, hint, ok := s.readNotes(sn, foot, where)
 		if !ok {
 			s.notesOff = true
 			return
@@ -448,15 +465,15 @@ func (s *state) checkNotes(sn *snap, where, added, addedText string) {
 				}
 			}
 			if len(fresh) != 1 || got[fresh[0]] != addedText {
-				s.fail("C15.N1", "%s: after adding a %snote with text %q the notes part does not hold exactly one new note with that text (new ids %q); live notes before the call: %d; part now: %s",
-					where, map[bool]string{true: "foot", false: "end"}[foot], addedText, fresh, len(model), renderNotes(got))
+				s.fail("C15.N1", "%s: after adding a %snote with text %q the notes part does not hold exactly one new note with that text (new ids %q); live notes before the call: %d; part now: %s%s",
+					where, map[bool]string{true: "foot", false: "end"}[foot], addedText, fresh, len(model), renderNotes(got), hint)
 				s.notesOff = true
 				return
 			}
 			model[fresh[0]] = addedText
 		}
 		if d := diffNotes(got, model); d != "" {
-			s.fail("C15.N1", "%s: word/%snotes.xml does not hold exactly the live notes: %s", where, map[bool]string{true: "foot", false: "end"}[foot], d)
+			s.fail("C15.N1", "%s: the document's %snotes part does not hold exactly the live notes: %s%s", where, map[bool]string{true: "foot", false: "end"}[foot], d, hint)
 			s.notesOff = true
 			return
 		}
@@ -515,6 +532,9 @@ func (s *state) doNote(op Op) {
 			return
 		}
 		tag := "en"
+		if (foot && s.fnRejEarly && !s.fnEver) || (!foot && s.enRejEarly && !s.enEver) {
+			s.res.Label("note:first-add-after-rejected-removal")
+		}
 		if foot {
 			s.fnEver, tag = true, "fn"
 		} else {
@@ -545,6 +565,9 @@ func (s *state) doNote(op Op) {
 			s.fail("C15.N1", "AddFootnoteToRun(run, %q) failed: %v", op.Note, err)
 			s.notesOff = true
 			return
+		}
+		if s.fnRejEarly && !s.fnEver {
+			s.res.Label("note:first-add-after-rejected-removal")
 		}
 		s.fnEver = true
 		if sn := s.snapshot("after fnrun"); sn != nil {
@@ -581,6 +604,13 @@ func (s *state) doNote(op Op) {
 			kind = "live" // the raw id happens to name a live note
 		}
 		s.res.Label("rm:" + kind)
+		if kind != "live" {
+			if foot && !s.fnEver {
+				s.fnRejEarly = true
+			} else if !foot && !s.enEver {
+				s.enRejEarly = true
+			}
+		}
 		var err error
 		ok := s.call("Remove "+op.K, func() {
 			if foot {
